@@ -126,7 +126,11 @@ class _CenterManifoldDynamicsService(_DynamicsServiceBase):
 
         def _factory():
             return self.pipeline_for_degree(degree).get_hamiltonian("center_manifold_real")
-        
+
+        # The current degree follows the request on a cache hit exactly as on a miss
+        if degree != self._degree:
+            self.degree = degree
+
         return self.get_or_create(cache_key, _factory)
 
     def pipeline_for_degree(self, degree: int) -> HamiltonianPipeline:
